@@ -37,6 +37,7 @@ REDIRECT = {
     "timespec_get": "sim_fb_timespec_get",
     "fopen": "sim_fb_fopen", "open": "sim_fb_open", "read": "sim_fb_read", "fread": "sim_fb_fread",
     "getenv": "sim_fb_getenv", "getpid": "sim_fb_getpid",
+    "mlock": "sim_sys_mlock", "munlock": "sim_sys_munlock", "madvise": "sim_sys_madvise",
     # synchronisation, should the library ever use it: wrappers that yield to the scheduler instead of blocking
     "pthread_mutex_lock": "sim_mutex_lock", "pthread_mutex_trylock": "sim_mutex_trylock", "pthread_mutex_unlock": "sim_mutex_unlock",
     "pthread_rwlock_rdlock": "sim_rwlock_rdlock", "pthread_rwlock_wrlock": "sim_rwlock_wrlock", "pthread_rwlock_unlock": "sim_rwlock_unlock",
